@@ -71,3 +71,8 @@ chk("C08",
     "Exhaustive enumeration of schedules (preemption bound 2 with happens-before caching; thorough: unbounded) of all small client programs (2-3 threads x 1-2 Write/Read/Delete operations on two same-shard keys) plus one batch thread (ExpireAll, DeleteAll, delete-expired, eviction under three strategies, Walk) on the three real backends; every per-key invocation/response history is checked with porcupine v1.3.0 against a nondeterministic register-with-expiry model in which a batch call is one pseudo-operation per key.",
     "Trusted: porcupine; the register model. Abstraction: the instrumented build has 4 instead of 128 shards (vinst -const shards=4) so that batch operations are short enough to interleave exhaustively. Exhaustive below 3(+1) threads x 2 operations only.",
     "stateless model checking of the implementation (DFS over schedules, HB caching) + linearizability checking of every explored history", "DESIGN.md §C08")
+
+chk("C14",
+    "Complete enumeration of cache-name assignments x entry sets x backend pairings x request perturbations through an in-process RoundTripper, a body cut / body read failure injected at EVERY byte offset of the exported stream, and every type-registration sequence up to length 4 evaluated in a fresh process each; importer contents are compared with the exporter's.",
+    "Trusted: net/http's Handler/Request plumbing, encoding/gob. Entry sets beyond two entries per cache and type pools beyond the four listed types are not explored.",
+    "exhaustive input and fault-position enumeration on the implementation (fresh-process enumeration for the hash)", "DESIGN.md §C14")
